@@ -99,6 +99,68 @@ D_WIDE = (D_CORE
           + [["add_jitter", 1], ["add_diagonal", 1], ["getitem", 1], ["scale", 1]])
 
 
+# settings regimes of the structured settings-switch families (a cache written under one regime is read under another)
+REGIMES = {"default": st(), "chol0": st(max_chol=0), "cg": st(max_chol=0, min_precond=1),
+           "cg2": st(max_chol=0, min_precond=1, precond_size=2),
+           "nofast": st(max_chol=0, fc_root=False, fc_logprob=False, fc_solves=False), "ciq": st(ciq=True),
+           "chol0_noroot": st(max_chol=0, fc_root=False)}
+SW_WRITERS = [["cholesky", [], []], ["root_decomposition", [], []], ["root_inv_decomposition", [], []],
+              ["diagonalization", [], []], ["svd"], ["sample", 0], ["logdet"], ["precond"], ["inv_quad_logdet", 0, True]]
+SW_READERS = [["root_decomposition", [], []], ["root_inv_decomposition", [], []], ["logdet"], ["inv_quad_logdet", 0, True],
+              ["sample", 0], ["precond"], ["solve", 0], ["cholesky", [], [["upper", B(True)]]]]
+SW_PRECOND = [["precond"], ["logdet"], ["inv_quad_logdet", 0, True], ["solve", 0]]
+SW_DERIVS = [["add_low_rank", 0, NONE, NONE, True], ["cat_rows", 0, 0, True, True], ["add_jitter", 0]]
+
+
+def switch_histories(label, quick):
+    """structured families in which the settings change between the call that writes a cache (in the dict or outside
+    it) and the call that reads it, with or without a derivation in between; deterministic"""
+    out = []
+    H = lambda *evs: out.append(list(evs))                                       # noqa: E731
+    S_ = lambda r: ("set", REGIMES[r], False)                                     # noqa: E731
+    Q_ = lambda q: ("q", q, False)                                                # noqa: E731
+    D_ = lambda d: ("d", d, False)                                                # noqa: E731
+    if label in ("Dense", "AddedDiag(Dense,ConstantDiag)"):
+        regs = ["default", "chol0", "cg", "cg2"] if quick else list(REGIMES)
+        for a in regs:
+            for b in regs:
+                if a == b:
+                    continue
+                for w in SW_WRITERS:
+                    for r in SW_READERS:
+                        H(S_(a), Q_(w), S_(b), Q_(r))
+        # a cache written under a non-default regime, a derivation, a query on the derived operator
+        for a in (["chol0"] if label == "Dense" else ["cg", "cg2"]) + ([] if quick else ["nofast", "chol0_noroot"]):
+            for w in SW_WRITERS:
+                for d in D_CORE:
+                    for r in SW_READERS:
+                        H(S_(a), Q_(w), D_(d), Q_(r))
+        # ... and with the switch between the write and the derivation
+        pairs = [("default", "chol0"), ("chol0", "default"), ("cg", "cg2"), ("cg2", "cg")]
+        if not quick:
+            pairs += [("default", "cg"), ("cg", "default"), ("nofast", "default"), ("default", "nofast")]
+        for a, b in pairs:
+            for w in SW_WRITERS:
+                for d in SW_DERIVS:
+                    for r in SW_READERS:
+                        H(S_(a), Q_(w), S_(b), D_(d), Q_(r))
+    elif label == "AddedDiag(Dense,Diag)":
+        regs = ["default", "chol0", "cg", "cg2"]
+        for a in regs:
+            for b in regs:
+                if a == b:
+                    continue
+                for w in SW_PRECOND:
+                    for r in SW_PRECOND:
+                        H(S_(a), Q_(w), S_(b), Q_(r))
+        for a in ("cg", "cg2"):
+            for w in SW_PRECOND:
+                for d in D_CORE:
+                    for r in SW_PRECOND:
+                        H(S_(a), Q_(w), D_(d), Q_(r))
+    return out
+
+
 def root_exprs(quick):
     """operator expressions (opbuild JSON) of the root objects: (label, expr, exact-universe?)"""
     from . import opbuild
@@ -195,13 +257,25 @@ def run_history(expr, events, want_fresh=True):
                     stp.update(skipped=True)
                     rec["steps"].append(stp)
                     break
+                penv = getattr(w, "precond_env", {}).get(i)     # state of the preconditioner cache BEFORE the call
                 raised, ans, ctx = w.do_query(i, q, seed=si)
                 A = w.dense[i]
                 asp = W.query_aspect(q)
                 ok, why = (False, "raised %s" % type(ans).__name__) if raised else W.valid(asp, A, ans, TOL, ctx)
                 stp.update(raised=raised, valid=ok, why=why, exc=(type(ans).__name__ + ": " + str(ans)[:120]) if raised else None)
                 transparent = ok
-                if want_fresh and (raised or not ok or asp[0] in ("logdet", "iqld")):
+                det = deterministic_method(q)
+                if (want_fresh and asp[0] == "precond" and ok and penv is not None
+                        and penv["precond_size"] != cur["precond_size"]):
+                    # deterministic view of the same state: the preconditioner handed out is the one a fresh object
+                    # builds under the CURRENT settings
+                    fr_, fans_, _ = fresh_query(w, i, q, si)
+                    if fr_ is False and not same_precond(ans, fans_):
+                        stp.setdefault("extra", []).append(
+                            ["precond-cache:ignores-settings",
+                             "preconditioner cached under max_preconditioner_size=%d is handed out under %d; a fresh "
+                             "object builds another one" % (penv["precond_size"], cur["precond_size"])])
+                if want_fresh and (raised or not ok or asp[0] in ("logdet", "iqld") or det):
                     # the same query on a fresh clone under the same settings and the same RNG state
                     fw_raised, fans, fctx = fresh_query(w, i, q, si)
                     if fw_raised is None:
@@ -215,9 +289,31 @@ def run_history(expr, events, want_fresh=True):
                             # stochastic Lanczos quadrature: identical probes give the identical estimate
                             ok2 = same_answer(ans, fans)
                             stp["slq_same_as_fresh"] = ok2
+                            if not ok2 and penv is not None and penv["precond_size"] != cur["precond_size"]:
+                                # ... given the same preconditioner: the object's out-of-dict preconditioner cache was
+                                # built under another max_preconditioner_size and is re-used as it is (modelled state:
+                                # o_adhoc).  Equal to a fresh object in THAT state: transparent for the model; that the
+                                # state ignores the current setting is reported on its own (direct predicate)
+                                r3, fans3, _ = fresh_query(w, i, q, si, precond_env=penv)
+                                if r3 is False and same_answer(ans, fans3):
+                                    ok2 = True
+                                    stp["slq_same_as_fresh_in_precond_state"] = True
+                                    if fok:
+                                        stp.setdefault("extra", []).append(
+                                            ["precond-cache:ignores-settings",
+                                             "estimate computed with the preconditioner cached under max_preconditioner_size=%d "
+                                             "(current: %d); a fresh object is accurate" % (penv["precond_size"], cur["precond_size"])])
                             ok = ok2 or ok
                         transparent = ok or not fok
                         stp["fresh_valid"] = fok
+                        if det and ok and fok:
+                            # "different decomposition methods are never confused": a factorization requested with an
+                            # explicit deterministic method is the SAME factor (up to column signs) a fresh object returns
+                            same = same_factor(ans, fans)
+                            stp["method_same_as_fresh"] = same
+                            if not same:
+                                transparent = False
+                                stp["why"] = "valid, but not the %s factor a fresh object returns" % det
                 stp["transparent"] = bool(transparent)
             elif kind == "d":
                 i, d = ev[1], ev[2]
@@ -246,6 +342,7 @@ def run_history(expr, events, want_fresh=True):
                 stp.update(raised=False, transparent=True, why="")
             else:
                 raise ValueError(ev)
+            w.note_precond_state(cur)
             obs = w.settings.observed()
             stp["settings_ok"] = all(obs[k] == cur[k] for k in cur)
             stp["keys"] = w.keys()
@@ -283,6 +380,57 @@ def roots_compatible(w, i, d):
         return None
 
 
+DET_METHODS = {"root_decomposition": (0, {"cholesky", "symeig", "svd", "pivoted_cholesky"}),
+               "root_inv_decomposition": (2, {"cholesky", "symeig", "svd"}),
+               "diagonalization": (0, {"symeig"})}
+
+
+def deterministic_method(q):
+    """the explicit method of a factorization query when that method is deterministic (no random start vector),
+    else None"""
+    if q[0] not in DET_METHODS:
+        return None
+    pos, ms = DET_METHODS[q[0]]
+    m = None
+    if len(q[1]) > pos and q[1][pos][0] == "str":
+        m = q[1][pos][1]
+    for k_, v_ in q[2]:
+        if k_ == "method" and v_[0] == "str":
+            m = v_[1]
+    return m if m in ms else None
+
+
+def same_factor(a, b, tol=1e-6):
+    """two factors (Root operators, or (evals, evecs) pairs) equal up to the sign of each column"""
+    import torch
+    from . import c12_world as W
+    try:
+        if isinstance(a, tuple) and isinstance(b, tuple):
+            if len(a) != 2 or len(b) != 2 or not W.close(a[0], b[0], tol):
+                return False
+            Ra, Rb = W.dn(a[1]), W.dn(b[1])
+        else:
+            Ra, Rb = W.dn(a.root), W.dn(b.root)
+        if Ra.shape != Rb.shape:
+            return False
+        d = torch.minimum((Ra - Rb).abs().amax(-2), (Ra + Rb).abs().amax(-2))
+        return bool(d.max() <= tol * max(1.0, float(Rb.abs().max())))
+    except Exception:
+        return False
+
+
+def same_precond(a, b, tol=1e-6):
+    """two answers of _preconditioner(): both (None, None, None), or the same matrix P"""
+    from . import c12_world as W
+    try:
+        na, nb = a[1] is None, b[1] is None
+        if na or nb:
+            return na == nb
+        return W.close(W.dn(a[1]), W.dn(b[1]), tol)
+    except Exception:
+        return False
+
+
 def same_answer(a, b, tol=1e-7):
     import torch
     from . import c12_world as W
@@ -293,13 +441,22 @@ def same_answer(a, b, tol=1e-7):
     return False
 
 
-def fresh_query(w, i, q, si):
-    """same query on a freshly constructed copy of object i (no cache), same settings, same RNG seed"""
+def fresh_query(w, i, q, si, precond_env=None):
+    """same query on a freshly constructed copy of object i (no cache), same settings, same RNG seed.
+    precond_env: build the copy's out-of-dict preconditioner cache first, under the given (earlier) settings - the
+    state a stochastic estimate legitimately depends on"""
     from . import c12_world as W
     try:
         clone = w.objs[i].clone()
     except Exception:
         return None, None, None
+    if precond_env is not None:
+        try:
+            from linear_operator import settings as S
+            with S.min_preconditioning_size(1), S.max_preconditioner_size(int(precond_env["precond_size"])):
+                clone._preconditioner()
+        except Exception:
+            return None, None, None
     w2 = object.__new__(W.World)
     w2.O = w.O
     w2.objs, w2.ids, w2.dense, w2.tensors = [clone], {id(clone): 0}, [w.dense[i]], []
@@ -583,10 +740,23 @@ def plan(ctx, exprs):
                     for b in writers:
                         for c in writers:
                             jobs.append((label, expr, [("q", a, False), ("q", b, False), ("q", c, False)]))
+            if full2:
+                # every derivation of the wide alphabet (all method pairs of add_low_rank, cat_rows flag combinations)
+                # followed by every core query on the derived operator
+                for d in D_WIDE[len(D_CORE):]:
+                    for c in Q_CORE:
+                        jobs.append((label, expr, [("d", d, False), ("q", c, False)]))
+            for h in switch_histories(label, True):
+                jobs.append((label, expr, h))
             nr = 60
         else:
             L = 3 if label in ("Dense", "AddedDiag(Dense,ConstantDiag)", "AddedDiag(Dense,Diag)", "Toeplitz") else 2
             for h in enum_histories(Q_CORE, D_CORE, L):
+                jobs.append((label, expr, h))
+            for d in D_WIDE[len(D_CORE):]:
+                for c in Q_CORE:
+                    jobs.append((label, expr, [("d", d, False), ("q", c, False)]))
+            for h in switch_histories(label, False):
                 jobs.append((label, expr, h))
             nr = 600
         for _ in range(nr):
@@ -595,8 +765,10 @@ def plan(ctx, exprs):
     return jobs, counts
 
 
-def execute(jobs, workers=6):
+def execute(jobs, workers=None):
     out = []
+    if workers is None:
+        workers = int(os.environ.get("C12_WORKERS", "6"))
     if workers <= 1:
         return [_work(j) for j in jobs]
     with ProcessPoolExecutor(max_workers=workers) as ex:
@@ -657,8 +829,14 @@ def problems_of(label, rec):
                      and op in ("root_decomposition", "root_inv_decomposition", "sample", "add_low_rank", "cat_rows")
                      and explicit in (None, "pinverse"))
         choice_cause = None
+        for (xc, xw) in stp.get("extra", []):
+            # direct predicates about facets the model abstracts from (never arbitrated by the model)
+            out.append((si, {"cause": xc, "op": op, "fail": "answer-vs-fresh", "root": label}, xw))
         if not stp["transparent"]:
-            if inherited and inherited != "kernel":
+            confused = stp.get("method_same_as_fresh") is False
+            if confused:
+                cause = "%s:method-confused" % op
+            elif inherited and inherited != "kernel":
                 cause = inherited
             elif op in ("eigh", "eigvalsh") and had_symeig:
                 cause = "%s:symeig-entry" % op
@@ -671,10 +849,10 @@ def problems_of(label, rec):
             else:
                 cause = "%s:%s" % (op, "raised" if stp.get("raised") else "invalid-answer")
             out.append((si, {"cause": cause, "op": op, "fail": "answer", "root": label, "method": chosen,
-                             "consequence": bool(inherited)}, stp.get("why") or stp.get("exc") or ""))
+                             "consequence": bool(inherited) and not confused}, stp.get("why") or stp.get("exc") or ""))
         cur = {}
         for (bi, bp, why) in stp["bad"]:
-            kk = stp["keys"][bi][bp]
+            kk = stp["keys"][bi][bp] if bp < 990 else ["adhoc", ["str", {999: "_q_cache", 998: "_sparse_interp_t_memo"}.get(bp, "unknown-cache-attribute")]]
             ident = (bi, json.dumps(kk))
             cur[ident] = (bi, bp, why, kk)
         # entries are identified by (object, key): positions shift when an entry is popped
@@ -718,7 +896,8 @@ def report(ctx, label, expr, events, rec, si, key, why):
     replay = {"kind": "history-dependence", "root": label, "expr": expr, "events": events[:si + 1],
               "why": why, "step": si,
               "observed": {k: rec["steps"][si].get(k) for k in ("raised", "valid", "transparent", "why", "exc", "bad",
-                                                                 "fresh_valid", "fresh_raised", "roots_compatible")}}
+                                                                 "fresh_valid", "fresh_raised", "roots_compatible",
+                                                                 "method_same_as_fresh", "extra")}}
     return ctx.violation(replay, key=key)
 
 
@@ -805,7 +984,7 @@ def run(ctx):
                     ojobs.append((label, expr, [("q", q, False), ("q", c, False)]))
         for _ in range(12 if ctx.quick else 300):
             ojobs.append((label, expr, random_hist(rng, rng.randrange(3, 9))))
-    results = execute(jobs + ojobs, workers=6)
+    results = execute(jobs + ojobs)
     t_exec = time.time() - t0
 
     exprs = dict(exact + others)
